@@ -208,7 +208,7 @@ func names(ws []doubles.Write) []string {
 
 func run(c *core.Ctx) {
 	t0 := time.Date(2025, 1, 1, 0, 0, 0, 0, time.UTC)
-	nh := c.N(8, 60)
+	nh := c.N(24, 96)
 	k := &checker{c: c}
 	orders := map[string]bool{}
 	for h := 0; h < nh; h++ {
